@@ -130,8 +130,94 @@ type execResult struct {
 	mism      *mismatch
 	outcome   string // classification of the LAST call
 	outside   bool
-	primedRun bool // the history was also executed in the primed variant
-	primed    bool // the mismatch comes from the primed variant
+	primedRun bool    // the history was also executed in the directory-primed variant
+	tableRuns int     // number of additional descriptor-table variants executed
+	v         variant // the variant the mismatch comes from (zero value: plain execution)
+}
+
+// variant describes how an execution deviates from the plain one (also part of the replay format).
+type variant struct {
+	// Primed: before the last call every directory descriptor is listed to its end in one call.
+	Primed bool `json:"primed,omitempty"`
+	// Touch: before the last call fd_tell is issued on these descriptor numbers, in this order
+	// (drives most-recently-used / memoised lookups in the descriptor layer into a chosen state).
+	Touch []int32 `json:"touch,omitempty"`
+	// ProbeFirst: after the last call these numbers are probed (fd_tell, fd_filestat_get) before anything else.
+	ProbeFirst []int32 `json:"probe_first,omitempty"`
+}
+
+func (v variant) plain() bool { return !v.Primed && len(v.Touch) == 0 && len(v.ProbeFirst) == 0 }
+
+// tableVariants: for a history whose last call changes the descriptor table according to the model
+// (fd_close, fd_renumber, path_open succeeding), the executions in which every open descriptor is
+// touched just before that call — the affected numbers last (in every order) or first — and the
+// affected numbers are probed first afterwards (in every order).
+func tableVariants(hist []Op) []variant {
+	last := &hist[len(hist)-1]
+	if last.K != "fd_close" && last.K != "fd_renumber" && last.K != "path_open" {
+		return nil
+	}
+	m := newModel()
+	for i := range hist[:len(hist)-1] {
+		if e := m.apply(&hist[i]); e.Outside != "" {
+			return nil
+		}
+	}
+	var open []int32
+	for fd := int32(0); fd < 16; fd++ {
+		if m.fds[fd] != nil {
+			open = append(open, fd)
+		}
+	}
+	exp := m.apply(last)
+	if exp.Outside != "" || len(exp.Errs) > 0 {
+		return nil
+	}
+	var aff []int32
+	switch last.K {
+	case "fd_close":
+		aff = []int32{last.Fd}
+	case "fd_renumber":
+		aff = []int32{last.Fd}
+		if last.Fd2 != last.Fd {
+			aff = append(aff, last.Fd2)
+		}
+	case "path_open":
+		aff = []int32{int32(exp.N)}
+	}
+	isAff := func(fd int32) bool {
+		for _, a := range aff {
+			if a == fd {
+				return true
+			}
+		}
+		return false
+	}
+	var others []int32
+	for _, fd := range open {
+		if !isAff(fd) {
+			others = append(others, fd)
+		}
+	}
+	perms := [][]int32{aff}
+	if len(aff) == 2 {
+		perms = append(perms, []int32{aff[1], aff[0]})
+	}
+	cat := func(a, b []int32) []int32 { return append(append([]int32{}, a...), b...) }
+	var touches [][]int32
+	for _, p := range perms {
+		touches = append(touches, cat(others, p)) // affected last
+	}
+	if len(others) > 0 {
+		touches = append(touches, cat(aff, others)) // affected first
+	}
+	var out []variant
+	for _, t := range touches {
+		for _, p := range perms {
+			out = append(out, variant{Touch: t, ProbeFirst: p})
+		}
+	}
+	return out
 }
 
 // changesDirectory: calls that can add/remove directory entries.
@@ -172,7 +258,11 @@ func histString(h []Op) string {
 // last call changes a directory; the post-history probe then rewinds the same descriptors (cookie 0)
 // and must see exactly the new listing. (A listing is a no-op in the model, so the BFS never has one
 // inside a shortest history; priming supplies the readdir -> mutate -> readdir(0) interaction.)
-func (w *worker) execute(hist []Op, verbose, primed bool) (r execResult) {
+//
+// v.Touch / v.ProbeFirst: see variant.
+func (w *worker) execute(hist []Op, verbose bool, v variant) (r execResult) {
+	primed := v.Primed
+	r.v = v
 	w.seq++
 	dir := filepath.Join(w.dir, fmt.Sprintf("t%d", w.seq))
 	populate(dir)
@@ -202,6 +292,19 @@ func (w *worker) execute(hist []Op, verbose, primed bool) (r execResult) {
 							What: fmt.Sprintf("after [%s] the listing %s: %s", histString(hist[:i]), po.String(), d)}
 						return
 					}
+				}
+			}
+		}
+		if i == len(hist)-1 {
+			for _, fd := range v.Touch {
+				to := Op{K: "fd_tell", Fd: fd}
+				exp := m.apply(&to)
+				res := x.do(&to)
+				say("  touch:  %-44s -> errno=%d n=%d | model: %s", to.String(), res.Errno, res.N, expString(exp))
+				if f, d := compare(exp, res, book); f != "" {
+					r.mism = &mismatch{Sig: "touch:fd_tell:" + f, Step: i,
+						What: fmt.Sprintf("after [%s] the call %s: %s", histString(hist[:i]), to.String(), d)}
+					return
 				}
 			}
 		}
@@ -240,6 +343,10 @@ func (w *worker) execute(hist []Op, verbose, primed bool) (r execResult) {
 	// directory descriptor must list (rewound) what the model tree holds; every name must look up
 	// to what the model says.
 	var probes []Op
+	for _, fd := range v.ProbeFirst {
+		probes = append(probes, Op{K: "fd_tell", Fd: fd}, Op{K: "fd_filestat_get", Fd: fd})
+	}
+	nFirst := len(probes)
 	for fd := int32(3); fd <= 7; fd++ {
 		probes = append(probes, Op{K: "fd_tell", Fd: fd}, Op{K: "fd_filestat_get", Fd: fd})
 		if e := m.fds[fd]; e != nil && e.ino.dir {
@@ -250,7 +357,7 @@ func (w *worker) execute(hist []Op, verbose, primed bool) (r execResult) {
 		probes = append(probes, Op{K: "path_filestat_get", Fd: 3, P: n})
 	}
 	{
-		for _, o := range probes {
+		for pi, o := range probes {
 			k := o.K
 			exp := m.apply(&o)
 			res := x.do(&o)
@@ -260,13 +367,16 @@ func (w *worker) execute(hist []Op, verbose, primed bool) (r execResult) {
 				if primed && k == "fd_readdir" {
 					sig = last + ":post:rewound-fd_readdir-after-full-listing:" + f
 				}
+				if pi < nFirst {
+					sig = last + ":post:first-probe-after-touching-descriptors:" + k + ":" + f
+				}
 				if n := len(hist); n > 0 && hist[n-1].K == "fd_renumber" && hist[n-1].Fd == hist[n-1].Fd2 &&
 					o.Fd == hist[n-1].Fd && (k == "fd_tell" || k == "fd_filestat_get") && f == "errno" && res.Errno == eBADF {
 					// the descriptor that was renumbered onto itself (successfully) is now closed
 					sig = "fd_renumber:from==to:descriptor-closed"
 				}
 				r.mism = &mismatch{Sig: sig, Step: len(hist),
-					What: fmt.Sprintf("after [%s] the probe %s: %s", histString(hist), o.String(), d)}
+					What: fmt.Sprintf("after [%s]%s the probe %s: %s", histString(hist), variantString(v), o.String(), d)}
 				return
 			}
 		}
@@ -279,6 +389,20 @@ func (w *worker) execute(hist []Op, verbose, primed bool) (r execResult) {
 	say("  probes and host tree agree: {%s}", m.TreeString())
 	r.key = m.Key()
 	return
+}
+
+func variantString(v variant) string {
+	if v.plain() {
+		return ""
+	}
+	s := " ("
+	if v.Primed {
+		s += "directories listed before the last call"
+	}
+	if len(v.Touch) > 0 {
+		s += fmt.Sprintf("fd_tell on %v just before the last call, probing %v first", v.Touch, v.ProbeFirst)
+	}
+	return s + ")"
 }
 
 func expString(e Exp) string {
@@ -306,9 +430,9 @@ func hashKey(s string) (k hkey) {
 }
 
 type bfsStats struct {
-	states, transitions, outside, pruned, primed int64
-	perDepth                                     []map[string]int64
-	exhaustive                                   bool
+	states, transitions, outside, pruned, primed, tableRuns int64
+	perDepth                                                []map[string]int64
+	exhaustive                                              bool
 }
 
 func fsBFS(run *fw.Run, depth int, deadline time.Time, outcomes *fw.Counter, samples *fw.Sampler) bfsStats {
@@ -318,7 +442,7 @@ func fsBFS(run *fw.Run, depth int, deadline time.Time, outcomes *fw.Counter, sam
 	seen := map[hkey]bool{}
 	// the initial state is itself validated (probes + host tree)
 	w0 := newWorker(999)
-	r0 := w0.execute(nil, false, false)
+	r0 := w0.execute(nil, false, variant{})
 	w0.rt.rt.Close(ctx)
 	if r0.mism != nil {
 		// the empty history already disagrees: nothing to explore from
@@ -354,23 +478,32 @@ func fsBFS(run *fw.Run, depth int, deadline time.Time, outcomes *fw.Counter, sam
 					hist = append(hist, alpha[oi])
 				}
 				hist = append(hist, alpha[i%len(alpha)])
-				r := w.execute(hist, false, false)
-				if r.mism == nil && !r.outside && changesDirectory(&hist[len(hist)-1]) {
-					// second execution with fully listed directory descriptors before the last call
-					r2 := w.execute(hist, false, true)
-					r.primedRun = true
-					if r2.mism != nil {
-						r2.primedRun, r2.primed, r2.outcome = true, true, r.outcome
-						r = r2
-					} else if r2.key != r.key {
-						cleanup()
-						fw.Fatalf("primed execution of [%s] ends in a different model state", histString(hist))
+				r := w.execute(hist, false, variant{})
+				if r.mism == nil && !r.outside {
+					// further executions of the same history: directory-primed and descriptor-table variants
+					var vs []variant
+					if changesDirectory(&hist[len(hist)-1]) {
+						vs = append(vs, variant{Primed: true})
+						r.primedRun = true
+					}
+					tv := tableVariants(hist)
+					r.tableRuns = len(tv)
+					for _, v := range append(vs, tv...) {
+						r2 := w.execute(hist, false, v)
+						if r2.mism != nil {
+							r2.primedRun, r2.tableRuns, r2.outcome = r.primedRun, r.tableRuns, r.outcome
+							r = r2
+							break
+						} else if r2.key != r.key {
+							cleanup()
+							fw.Fatalf("variant execution of [%s] ends in a different model state", histString(hist))
+						}
 					}
 				}
 				if r.mism != nil {
-					// a verdict must be reproducible: same history, fresh instance, two more times
+					// a verdict must be reproducible: same history and variant, fresh instance, two more times
 					for k := 0; k < 2; k++ {
-						if r2 := w.execute(hist, false, r.primed); r2.mism == nil || r2.mism.Sig != r.mism.Sig {
+						if r2 := w.execute(hist, false, r.v); r2.mism == nil || r2.mism.Sig != r.mism.Sig {
 							cleanup()
 							fw.Fatalf("non-reproducible mismatch for [%s]: %s", histString(hist), r.mism.What)
 						}
@@ -388,6 +521,7 @@ func fsBFS(run *fw.Run, depth int, deadline time.Time, outcomes *fw.Counter, sam
 				if r.primedRun {
 					st.primed++
 				}
+				st.tableRuns += int64(r.tableRuns)
 				outcomes.Inc(r.outcome)
 				hist := func() []Op {
 					var o []Op
@@ -399,7 +533,7 @@ func fsBFS(run *fw.Run, depth int, deadline time.Time, outcomes *fw.Counter, sam
 				switch {
 				case r.mism != nil:
 					st.pruned++
-					run.Violation(r.mism.Sig, r.mism.What, map[string]any{"kind": "fs", "history": hist(), "primed": r.primed})
+					run.Violation(r.mism.Sig, r.mism.What, map[string]any{"kind": "fs", "history": hist(), "variant": r.v})
 				case r.outside:
 					st.outside++
 				default:
@@ -456,7 +590,7 @@ func main() {
 		depths = append(depths, l)
 	}
 	run.Finish(fw.Coverage{
-		Evaluations:     st.transitions + st.primed + rd.sequences + rd.mutated,
+		Evaluations:     st.transitions + st.primed + st.tableRuns + rd.sequences + rd.mutated,
 		DistinctNontriv: st.states - 1 + rd.sequences + rd.mutated,
 		States:          st.states, Transitions: st.transitions, TracesValidated: st.transitions,
 		Rule:    "fs: distinct canonical reference-model states (tree+contents, descriptor table with inode identity, offsets, append/write flags) other than the initial one, each reached by executing its shortest history on the real WASI implementation; readdir: distinct (directory, buf_len, cookie sequence) call sequences, each executed on a fresh directory descriptor; readdir-mutation: distinct (directory, buf_len, traversal prefix, mutation) cases",
@@ -467,7 +601,7 @@ func main() {
 			"readdir": rd.bounds, "fs_host_filesystem": fastFS, "readdir_host_filesystem": tmpFS,
 		},
 		Extra: map[string]any{
-			"fs_transitions_also_executed_primed": st.primed, "readdir_mutation_cases": rd.mutated,
+			"fs_transitions_also_executed_primed": st.primed, "fs_descriptor_table_variant_executions": st.tableRuns, "readdir_mutation_cases": rd.mutated,
 			"fs_transitions_outside_model": st.outside, "fs_transitions_with_mismatch": st.pruned,
 			"readdir_calls": rd.calls, "readdir_sequences": rd.sequences, "readdir_traversals": rd.traversals,
 			"readdir_stale_cookie_results": rd.stale,
@@ -493,7 +627,8 @@ func replay(file string) int {
 		Replay    struct {
 			Kind    string       `json:"kind"`
 			History []Op         `json:"history"`
-			Primed  bool         `json:"primed"`
+			Primed  bool         `json:"primed"` // older replay files
+			Variant variant      `json:"variant"`
 			Readdir *readdirCase `json:"readdir"`
 		} `json:"replay"`
 	}
@@ -504,7 +639,9 @@ func replay(file string) int {
 	switch doc.Replay.Kind {
 	case "fs":
 		w := newWorker(0)
-		r := w.execute(doc.Replay.History, true, doc.Replay.Primed)
+		v := doc.Replay.Variant
+		v.Primed = v.Primed || doc.Replay.Primed
+		r := w.execute(doc.Replay.History, true, v)
 		if r.mism != nil {
 			fmt.Printf("MISMATCH signature=%s: %s\n", r.mism.Sig, r.mism.What)
 			return 1
